@@ -129,6 +129,9 @@ func buildSexpFun(
 
 	sfun := gen.env.MakeFunction(gen.funcname, nargs, varargs, nil, orig)
 	sfun.SetFormalSymbols(argsyms)
+	if rebindsOwnName(name, funcargs.Val, funcbody) {
+		gen.funcname = ""
+	}
 	if len(name) > 0 {
 		// known by this name only while its own body is compiled: a nested
 		// definition of the same name must not replace it for the rest of
@@ -168,6 +171,134 @@ func buildSexpFun(
 	afsHelper.MyFunction = sfun
 
 	return sfun, nil
+}
+
+// A call to the function's own name in tail position is compiled as a jump
+// back to its first instruction: GenerateCallBySymbol compares the head of the
+// call with gen.funcname. That is right only while the name denotes this
+// function everywhere in the body. rebindsOwnName reports whether the function
+// binds or assigns its own name: as a parameter, or as the target of a let,
+// letseq, def, mdef, defn, defmac, set, = or := or a range loop anywhere in the
+// body (nested function definitions included: a closure may assign the name,
+// and their parameter lists count too, which only errs on the safe side). The
+// builders then clear gen.funcname, so that calls through the name stay
+// ordinary calls, which look the name up where they are made. Using the name
+// as a value -- (cons f acc), (register f) -- binds nothing and keeps the jump.
+func rebindsOwnName(name string, formals []Sexp, body []Sexp) bool {
+	if len(name) == 0 {
+		return false
+	}
+	if formalsBind(formals, name) {
+		return true
+	}
+	for _, b := range body {
+		if bindsName(b, name) {
+			return true
+		}
+	}
+	return false
+}
+
+// formalsBind: f, the lazy #f, and the typed f:type of a func declaration.
+func formalsBind(formals []Sexp, name string) bool {
+	for _, f := range formals {
+		if sym, ok := f.(*SexpSymbol); ok {
+			if sym.name == name || sym.name == "#"+name || sym.name == name+":" {
+				return true
+			}
+		}
+	}
+	return false
+}
+
+// assignsIn: name = v, name := v, a name = v w among the elements of a list,
+// an array or an infix block.
+func assignsIn(elems []Sexp, name string) bool {
+	seen := false
+	for _, x := range elems {
+		sym, ok := x.(*SexpSymbol)
+		switch {
+		case !ok:
+			if _, isComma := x.(*SexpComma); !isComma {
+				seen = false
+			}
+		case sym.name == "=" || sym.name == ":=":
+			if seen {
+				return true
+			}
+		case sym.name == name:
+			seen = true
+		}
+	}
+	return false
+}
+
+func bindsName(expr Sexp, name string) bool {
+	var elems []Sexp
+	switch e := expr.(type) {
+	case *SexpArray:
+		elems = e.Val
+	case *SexpPair:
+		if !IsList(e) {
+			return bindsName(e.Head, name) || bindsName(e.Tail, name)
+		}
+		elems, _ = ListToArray(e)
+		if head, ok := e.Head.(*SexpSymbol); ok {
+			args := elems[1:]
+			switch head.name {
+			case "def", "set", "defmac":
+				if len(args) > 0 && isSymbolNamed(args[0], name) {
+					return true
+				}
+			case "mdef":
+				if len(args) > 1 && formalsBind(args[:len(args)-1], name) {
+					return true
+				}
+			case "let", "letseq":
+				if len(args) > 0 {
+					if arr, isArr := args[0].(*SexpArray); isArr {
+						for i := 0; i+1 < len(arr.Val); i += 2 {
+							if isSymbolNamed(arr.Val[i], name) {
+								return true
+							}
+						}
+					}
+				}
+			case "range":
+				if len(args) > 1 && (isSymbolNamed(args[0], name) || isSymbolNamed(args[1], name)) {
+					return true
+				}
+			}
+			switch head.name {
+			case "fn":
+				if len(args) > 0 {
+					if arr, isArr := args[0].(*SexpArray); isArr && formalsBind(arr.Val, name) {
+						return true
+					}
+				}
+			case "defn", "defmac", "func", "method":
+				if len(args) > 0 && isSymbolNamed(args[0], name) {
+					return true
+				}
+				if len(args) > 1 {
+					if arr, isArr := args[1].(*SexpArray); isArr && formalsBind(arr.Val, name) {
+						return true
+					}
+				}
+			}
+		}
+	default:
+		return false
+	}
+	if assignsIn(elems, name) {
+		return true
+	}
+	for _, x := range elems {
+		if bindsName(x, name) {
+			return true
+		}
+	}
+	return false
 }
 
 func (gen *Generator) GenerateFn(args []Sexp, orig Sexp) error {
